@@ -552,9 +552,20 @@ def retuple(t, v):
     return (tag, retuple(t["fields"][tag], x) if tag < len(t["fields"]) else None)
 
 
-def design_model(ctx):
+def design_model(ctx, machine=False):
     """the bounded design theorems of the wire specification itself (about the MODEL, see DESIGN §1)"""
     tlc.check_model(ctx, "WireDesign", ctx.pick("WireDesign", "WireDesign_2"), constants="Level=%d" % ctx.pick(1, 2), timeout=3000)
+    if machine:
+        # I-layer: the C serializer's cursor machine (static alignment sets, whole-byte fast paths over a non-zeroed buffer) refines Ser
+        for cfg, c in ctx.pick([("WireMachine", "Little=TRUE Level=1")],
+                               [("WireMachine_2", "Little=TRUE Level=2"), ("WireMachine_any_2", "Little=FALSE Level=2")]):
+            tlc.check_model(ctx, "WireMachine", cfg, constants=c, timeout=3000)
+        if not ctx.quick:
+            for cfg in ("WireMachine_neg1", "WireMachine_neg2"):
+                neg = tlc.run_tlc(tlc.SPECS / "WireMachine.tla", tlc.SPECS / (cfg + ".cfg"), ctx.scratch)
+                if neg.violated != "Refines":
+                    raise MachineryFailure("negative control %s of the serializer machine was not refuted" % cfg)
+            ctx.cov["machine_negative_controls"] = "nofinalpad and dynalign variants refuted by Refines"
 
 
 def selftest_binding(ctx, camp):
